@@ -20,9 +20,10 @@ func H_Size() {
 }
 
 const (
-	lo  = 1.0 / (1 << 40)
-	hi  = 1 << 40
-	tol = 8.0 / (1 << 24) // 8 units of float32 rounding
+	lo    = 1.0 / (1 << 62) / (1 << 8) // 2^-70
+	hi    = (1 << 62) * (1 << 8)       // 2^70
+	ratio = 1 << 30                    // aspect ratios of viewBox and target within [2^-30, 2^30]
+	tol   = 8.0 / (1 << 24)            // 8 units of float32 rounding
 )
 
 // H_Fit (rounded-real reading): meet and slice for all viewBoxes of positive
@@ -35,6 +36,9 @@ func H_Fit() {
 	ax, ay := vp.F32("ax"), vp.F32("ay")
 	vp.Assume(vp.All(vw >= lo, vw <= hi, vh >= lo, vh <= hi, dx >= lo, dx <= hi, dy >= lo, dy <= hi))
 	vp.Assume(vp.All(ax >= 0, ax <= 1, ay >= 0, ay <= 1, ox >= -hi, ox <= hi, oy >= -hi, oy <= hi))
+	vp.ExactBegin()
+	vp.Assume(vp.All(vw <= ratio*vh, vh <= ratio*vw, dx <= ratio*dy, dy <= ratio*dx))
+	vp.ExactEnd()
 	// the viewBox is given by its exact extent: MaxX = ox+vw is assumed exactly
 	// representable (the property quantifies over viewBoxes, i.e. over Min/Max pairs;
 	// Size() rounds Max-Min once, which is inside the tolerance)
